@@ -193,6 +193,13 @@ def run(ctx: Ctx) -> None:
                 rep.bad("C01.R5", f.qname, desc, f.loc(h), [f"fetch_blob calls: {[unparse(x, 40) for x in fetch]}"], stmt_key(h), what="a hit returns the blob of another key than the one tested")
         for sb in stores:
             n5 += 1
+            v_ = sb.args[1] if len(sb.args) > 1 else None
+            d_ = "the value stored is the user call's result"
+            okv = isinstance(v_, ast.Name) and bool(fl.defs_of_use(v_)) and all(d.kind == "assign" and d.value in ucs for d in fl.defs_of_use(v_))
+            if okv:
+                rep.ok("C01.R5", f.qname, d_, f.loc(sb))
+            else:
+                rep.bad("C01.R5", f.qname, d_, f.loc(sb), [f"{f.loc(sb)}: `{unparse(sb, 60)}` stores `{unparse(v_)}`"], stmt_key(sb) + "val", what="the blob stored is not the value the user function returned")
             desc = "the blob is stored under the signature that the presence test / the analysis computed for this call"
             k = sb.args[0] if sb.args else None
             ok = False
